@@ -8,7 +8,12 @@
      "nomethod" - unknown method,  "params" - invalid params,  "handled" - reaches a handler with usable params. *)
 EXTENDS Naturals, Sequences, FiniteSets, TLC, Json
 HttpMethods == {"POST", "GET", "PUT"}
-Paths == {"/", "/health", "/metrics", "/api/v1/slot-to-cid/K", "/api/v1/sig-to-cid/K", "/api/v1/unknown", "/other"}
+\* the REST endpoints with an argument (K = an archived key, A = an absent one, G = garbage), without argument, without the
+\* trailing slash, with extra segments, with a query string, percent-encoded; prefixes of the API root
+Paths == {"/", "/health", "/metrics", "/api/v1/slot-to-cid/K", "/api/v1/sig-to-cid/K", "/api/v1/unknown", "/other",
+          "/api/v1/slot-to-cid", "/api/v1/slot-to-cid/", "/api/v1/sig-to-cid", "/api/v1/sig-to-cid/", "/api/v1/slot-to-cid/A", "/api/v1/sig-to-cid/A",
+          "/api/v1/slot-to-cid/G", "/api/v1/sig-to-cid/G", "/api/v1/slot-to-cid/K/extra", "/api/v1/slot-to-cid/K?x=1", "/api/v1/slot-to-cid/%4B",
+          "/api/v1", "/api/v1/", "/api", "/api/", "//", "/api/v1/slot-to-cidX", "/api/v1/sig-to-cid/" \o "long"}
 Bodies == {"empty", "garbage", "truncated", "array", "null", "number", "string", "oversize", "object"}
 \* unknown method names are echoed into error replies, logs and metric labels: length classes around the 64-byte cut of
 \* the label sanitiser, non-ASCII runes (2, 3, 4 bytes wide) starting at each byte position around that cut, control bytes
